@@ -590,6 +590,28 @@ def val_summary(prog, cname, given, mname='_val', extra_env=None):
 
 
 # --------------------------------------------------------------------------- R16.6
+class _FloatProps(ast.NodeTransformer):
+    """`x.p` for x one of the two operands (same class by the guard) and p a property of that class whose body is `return float(self)` is
+    `float(x)`"""
+
+    def __init__(self, prog, cname, other):
+        self.names = {'self', other}
+        self.props = set()
+        for k in prog.mro(cname):
+            ci = prog.classes.get(k)
+            if ci is None:
+                continue
+            for p in ci.props:
+                b = body_of(ci.methods[p])
+                if len(b) == 1 and isinstance(b[0], ast.Return) and b[0].value is not None and unparse(b[0].value) == 'float(self)':
+                    self.props.add(p)
+
+    def visit_Attribute(self, n):
+        if isinstance(n.value, ast.Name) and n.value.id in self.names and n.attr in self.props and isinstance(n.ctx, ast.Load):
+            return ast.copy_location(ast.Call(func=ast.Name(id='float', ctx=ast.Load()), args=[ast.Name(id=n.value.id, ctx=ast.Load())], keywords=[]), n)
+        return self.generic_visit(n)
+
+
 def _cmp_by_cases(ctx, prog, cname, fn, other, opt):
     """the comparison method, summarised path by path for float(self) <, ==, >, unordered (NaN) float(other): the returned
     expression must evaluate to what `float(self) <op> float(other)` gives in that case (E10; a difference compared with zero is
@@ -617,7 +639,7 @@ def _cmp_by_cases(ctx, prog, cname, fn, other, opt):
                 return False, f'{ {"lt": "smaller", "eq": "equal", "gt": "greater", "un": "NaN"}[rel] } operand: the method ends with {o.kind}'
             if any(isinstance(bb, str) for (_c, bb) in o.conds):
                 return False, f'the result depends on a condition the operands do not decide'
-            v = _Arith(env).visit(_copy.deepcopy(o.value))
+            v = _Arith(env).visit(_FloatProps(prog, cname, other).visit(_copy.deepcopy(o.value)))
             ast.fix_missing_locations(v)
             got = GuardEval(prog, cname, env).ev(v) if not isinstance(v, ast.Constant) else bool(v.value)
             if got is None or got != (rel in want):
